@@ -1,18 +1,27 @@
 """C11 — calls keep succeeding across server-initiated connection closes.
 
 Spec: spec/ClientConn (ClientConn.tla: shared isClosed / current connection / sendQueue / sendFailQueue, one
-sender and one receiver goroutine per TCP connection with Go channel hand-off semantics; properties
-NoWriteOnKnownDead, HealthyNotMarkedClosed, NoStranding).  MC: 3 connections x 2 requests, the server closing
-idle connections at any point: the repaired design (Fix) satisfies all three, the original one violates each
-(non-vacuity guard).
+sender and one receiver goroutine per TCP connection with Go channel hand-off semantics; the server endpoint going
+down and coming back, failed dials and ReConnect's memory of them; properties NoWriteOnKnownDead,
+HealthyNotMarkedClosed, NoStranding, NoFailAfterDead, lemma DeadNotTreatedAsLive).  MC: 3 connections x 2 requests, the
+server closing idle connections at any point, and 2 connections x 3 requests with a restart: the repaired design (Fix)
+satisfies all of them, the original one violates each of the first three, and two deliberately wrong designs (a stale
+dial error handed to later callers; close() assigning the closed flag) violate NoFailAfterDead / NoStranding
+(non-vacuity guards).
 Binding B1 with schedule perturbation: a real transport.TarsClient talks to a harness server that answers
 every request and closes the connection in use while the client is idle; the next call comes 0 ms .. 1.1 s
 later (before/after the client's 1 s ticker); seeded delays injected at the client hooks (sender top /
 fail-queue poll / before the blocking select / after a write error / before requeue / receiver error / close)
-steer the goroutines into the rare interleavings.  Every hook event (dialled, enqueue, close, liveness check
+steer the goroutines into the rare interleavings.  Scenario classes (by scenario number): restart (listener and
+connections closed, calls while the endpoint refuses connections, listener back on the same port), heldrecv (the
+receiver of a lost connection held for 90-170 ms so that it reports after the next connection has been lost too),
+handover (old sender held before its select so that it takes the next request and must hand it over), overlap,
+doubleclose, random.  Half of the scenarios use a call timeout of 450-700 ms (below the sender's 1 s ticker).  Every hook event (dialled, enqueue, close, liveness check
 [under connLock], before-write, write error, requeued, tick, tick-exit, receiver exit), the server's
 received/replied/closed and each call's outcome form a trace that TLC validates against ClientConn: the
-invariants hold at every step and a call issued after the close was known must not time out.
+invariants hold at every step and a call issued after the close was known must not time out (nor fail with a dial
+error while the endpoint is up).  The harness server serialises receive/answer/close, and a request the client wrote
+that the server had not read when it closed counts as in flight (lost with the connection, the call raced).
 """
 import json
 import os
@@ -23,26 +32,57 @@ from lib.core import Inconclusive, VERIF, sh
 
 SPEC = "ClientConn"
 INVS = ("NoWriteOnKnownDead", "HealthyNotMarkedClosed", "NoStranding")
+ALL_INVS = INVS + ("NoFailAfterDead", "DeadNotTreatedAsLive")
+# deliberately wrong designs (constant Mut of ClientConn.tla) and the property each must violate, with the smallest configuration that shows it
+MUTANTS = {"staleDialError": ("NoFailAfterDead", dict(conns=2, reqs="{1, 2, 3}", restarts=1, inflight=1)),
+           "assignClosed": ("NoStranding", dict(conns=3, reqs="{1, 2}", restarts=0, inflight=2))}
 
 
 def split(path):
-    traces, cur = [], []
+    """-> [(meta, events)]: meta = the driver's Scenario record (seed, number, class: enough to run the same script again)."""
+    traces, cur, meta = [], [], None
     for line in open(path):
         e = json.loads(line)
-        if e["e"] == "Reset":
-            traces.append(cur)
-            cur = []
+        if e["e"] == "Scenario":
+            meta = e
+        elif e["e"] == "Reset":
+            traces.append((meta, cur))
+            cur, meta = [], None
         else:
             cur.append(e)
     return traces
 
 
+def signature(f):
+    ev = f["event"]
+    if f["invariant"]:
+        return "C11:%s" % f["invariant"][0]
+    if ev.get("e") == "CallEnd" and not ev.get("ok"):
+        return "C11:call-after-close-timed-out"
+    if ev.get("e") == "SendErr":
+        # a dial error returned while the endpoint was up and the caller was not queued behind a failing dial
+        return "C11:call-failed-with-stale-dial-error-although-endpoint-up"
+    if ev.get("e") == "EnqHook":
+        # the caller passed ReConnect without a dial although the current connection is known to be closed
+        return "C11:no-redial-although-connection-known-dead"
+    if ev.get("e") == "Dialed":
+        return "C11:dial-although-current-connection-healthy"
+    if ev.get("e") in ("Dequeued", "LiveCheck"):
+        return "C11:request-taken-for-a-connection-known-dead"
+    return "C11:trace-rejected:%s" % ev.get("e")
+
+
+TIMED = "C11:call-after-close-timed-out"   # the one verdict that depends on the clock: reproduced before it is reported
+REPEAT, NEEDED = 6, 2
+
+
 REDIAL_FIRST = "TRUE"   # the hand-over order of the code: FALSE = requeue, then ReConnect; TRUE = ReConnect, then requeue
 
 
-def mc_cfg(fix, inv, reqs="{1, 2}", redial_first=None):
-    return ("CONSTANTS MaxConn = 3  Reqs = %s  Fix = %s  RedialFirst = %s\nSPECIFICATION Spec\nINVARIANTS TypeOK %s\nCHECK_DEADLOCK FALSE\n"
-            % (reqs, fix, redial_first or REDIAL_FIRST, inv))
+def mc_cfg(fix, inv, reqs="{1, 2}", redial_first=None, conns=3, restarts=0, inflight=3, mut="none"):
+    return ("CONSTANTS MaxConn = %d  Reqs = %s  Fix = %s  RedialFirst = %s  MaxRestart = %d  MaxInFlight = %d  Mut = \"%s\"\n"
+            "SPECIFICATION Spec\nINVARIANTS TypeOK %s\nCHECK_DEADLOCK FALSE\n"
+            % (conns, reqs, fix, redial_first or REDIAL_FIRST, restarts, inflight, mut, inv))
 
 
 def run(ctx):
@@ -50,55 +90,103 @@ def run(ctx):
     ctx.assumptions = [
         "Go channel semantics as modelled (FIFO hand-off to the longest-parked receiver)",
         "the server answers everything it receives and closes a connection only while the client has no call in progress; calls that race with a close are exempt, as in the statement",
-        "call timeout 1.5 s; a call issued after the client has seen the close must succeed (any latency below the timeout)",
+        "call timeout 1.5 s, or 450-700 ms (below the sender's 1 s ticker period; every intended delay of a scenario is below 200 ms); a call "
+        "issued after the client has seen the close, while the endpoint listens, must succeed (any latency below the timeout); a run in which "
+        "a call timed out while the machine stalled (2 ms sleeps overrunning by 10 ms or more) for over a fifth of the timeout in total is dropped (counted)",
+        "a call made while the endpoint refuses connections (or is going down / coming up) may fail; the listener comes back on the same port",
     ]
-    ex = ThreadPoolExecutor(max_workers=4)
-    f_fix = ex.submit(tlc.run, ctx, SPEC, "ClientConn", cfg="mc.cfg", workers=6, timeout=1500, name="mc-fix",
-                      extra_files={"mc.cfg": mc_cfg("TRUE", " ".join(INVS), ctx.pick("{1, 2}", "{1, 2, 3}"))}, heap="8g")
+    ex = ThreadPoolExecutor(max_workers=3)
+    allinv = " ".join(ALL_INVS)
+    # the repaired design: (a) the server closes connections at any point, (b) it also restarts (listener down and up again)
+    fix_cfgs = {"close": mc_cfg("TRUE", allinv, ctx.pick("{1, 2}", "{1, 2, 3}"), inflight=3),
+                "restart": mc_cfg("TRUE", allinv, "{1, 2, 3}", conns=2, restarts=1, inflight=ctx.pick(1, 3))}
+    if ctx.tier != "quick":
+        fix_cfgs["restart-3conn"] = mc_cfg("TRUE", allinv, "{1, 2}", conns=3, restarts=1, inflight=2)
+        fix_cfgs["restart-sequential"] = mc_cfg("TRUE", allinv, "{1, 2, 3, 4}", conns=3, restarts=1, inflight=1)
+    f_fix = {n: ex.submit(tlc.run, ctx, SPEC, "ClientConn", cfg="mc.cfg", workers=ctx.pick(3, 4), timeout=1500, name="mc-fix-" + n,
+                          extra_files={"mc.cfg": c}, heap=ctx.pick("2g", "6g")) for n, c in fix_cfgs.items()}
     f_orig = {inv: ex.submit(tlc.run, ctx, SPEC, "ClientConn", cfg="mc.cfg", workers=2, timeout=900, name="mc-orig-" + inv,
                              extra_files={"mc.cfg": mc_cfg("FALSE", inv)}) for inv in INVS}
+    f_mut = {m: ex.submit(tlc.run, ctx, SPEC, "ClientConn", cfg="mc.cfg", workers=2, timeout=900, name="mc-mut-" + m,
+                          extra_files={"mc.cfg": mc_cfg("TRUE", inv, mut=m, **kw)}) for m, (inv, kw) in MUTANTS.items()}
     exe = gobuild.build(ctx, "vdrive")
     nproc = 10
-    per = ctx.pick(8, 120)
+    per = ctx.pick(12, 120)
 
     def drive(i):
         out = os.path.join(ctx.work, "cc%d.ndjson" % i)
-        rc, so, se = sh([exe, "clientconn-trace", "-seed", str(ctx.seed * 100 + i), "-n", str(per), "-out", out], timeout=3400)
-        return out, [int(x) for x in so.split()[-7:]]
+        rc, so, se = sh([exe, "clientconn-trace", "-seed", str(ctx.seed * 100 + i), "-n", str(per), "-first", str(i * 3), "-out", out], timeout=3400)
+        lines = so.strip().splitlines()
+        if rc != 0 or len(lines) < 2 or not lines[-1].startswith("STATS "):
+            raise Inconclusive("clientconn driver failed (rc=%s): %s %s" % (rc, so[-500:], se[-1500:]))
+        return out, [int(x) for x in lines[-2].split()[-7:]], json.loads(lines[-1][6:])
 
     with ThreadPoolExecutor(max_workers=nproc) as exd:
         outs = list(exd.map(drive, range(nproc)))
     hits = [sum(o[1][k] for o in outs) for k in range(7)]
     if min(hits[1:6]) == 0:
         raise Inconclusive("hook self-test: a client hook never fired: %s" % hits)
-    traces = []
-    for out, _ in outs:
-        traces += split(out)
+    dstats = {"classes": {}}
+    for o in outs:
+        for k, v in o[2].items():
+            if k == "classes":
+                for c, n in v.items():
+                    dstats["classes"][c] = dstats["classes"].get(c, 0) + n
+            elif k == "max_stall_ms":
+                dstats[k] = max(dstats.get(k, 0), v)
+            else:
+                dstats[k] = dstats.get(k, 0) + v
+    lost = dstats.get("dropped_disturbed", 0) + dstats.get("abandoned_relisten", 0)
+    runs = []
+    for out, _, _ in outs:
+        runs += split(out)
+    metas = [m for m, _ in runs]
+    traces = [t for _, t in runs]
     cfg = open(os.path.join(VERIF, "spec", SPEC, "Trace.cfg")).read().replace("@REDIAL_FIRST@", REDIAL_FIRST)
-    k = 8
-    parts = [traces[i::k] for i in range(k)]
+    k = 5
+    parts = [list(range(len(traces)))[i::k] for i in range(k)]
     states = trans = 0
     with ThreadPoolExecutor(max_workers=k) as exv:
-        results = list(exv.map(lambda ip: tracecheck.validate(ctx, SPEC, "Trace_ClientConn", cfg, ip[1], name="trace-%d" % ip[0], timeout=900),
-                               list(enumerate(parts))))
+        results = list(exv.map(lambda ip: tracecheck.validate(ctx, SPEC, "Trace_ClientConn", cfg, [traces[j] for j in ip[1]],
+                                                              name="trace-%d" % ip[0], timeout=900), list(enumerate(parts))))
+    timed = []      # (trace index, failure): calls that ran into their timeout although the model owes them an answer
     for (acc, fails, st), part in zip(results, parts):
         states += st["states"]
         trans += st["transitions"]
         for f in fails:
-            t = part[f["index"]]
-            ev = f["event"]
-            if f["invariant"]:
-                sig = "C11:%s" % f["invariant"][0]
-            elif ev.get("e") == "CallEnd" and not ev.get("ok"):
-                sig = "C11:call-after-close-timed-out"
-            elif ev.get("e") == "Dialed":
-                sig = "C11:dial-although-current-connection-healthy"
-            elif ev.get("e") in ("Dequeued", "LiveCheck"):
-                sig = "C11:request-taken-for-a-connection-known-dead"
-            else:
-                sig = "C11:trace-rejected:%s" % ev.get("e")
+            ti = part[f["index"]]
+            sig = signature(f)
+            if sig == TIMED:
+                timed.append((ti, f))
+                continue
             ctx.violate(sig, "client run is not a behaviour of ClientConn (repaired design) at event %s; preceding events: %s"
-                        % (json.dumps(ev), json.dumps(f["prefix"][:-1])[:400]), {"trace": t, "offset": f["offset"]})
+                        % (json.dumps(f["event"]), json.dumps(f["prefix"][:-1])[:400]), {"trace": traces[ti], "offset": f["offset"], "scenario": metas[ti]})
+    # "without waiting for its timeout" is the one judgement that depends on the clock: the same script (seed, number) is run
+    # REPEAT more times and the verdict is reported when at least NEEDED of these runs are rejected again (a request that is
+    # stranded or waits for the ticker comes back with the interleaving, which the script steers; a stalled machine does not)
+    reproduced = []
+    for n, (ti, f) in enumerate(timed[:8]):
+        m = metas[ti]
+        out = os.path.join(ctx.work, "rerun%d.ndjson" % n)
+        args = [exe, "clientconn-trace", "-seed", str(m["seed"]), "-first", str(m["idx"]), "-n", "1", "-repeat", str(REPEAT), "-out", out]
+        rc, so, se = sh(args + (["-class", m["class"]] if m.get("class") else []), timeout=600)
+        again = [t for _, t in split(out)]
+        acc, fails, st = tracecheck.validate(ctx, SPEC, "Trace_ClientConn", cfg, again, name="rerun-%d" % n, max_failures=REPEAT)
+        sigs = [signature(x) for x in fails]
+        reproduced.append({"scenario": m, "first": f["event"], "reruns": len(again), "rejected_again": sigs})
+        for x in fails:
+            if signature(x) != TIMED:       # anything else the repetition shows does not depend on the clock
+                ctx.violate(signature(x), "client run (repetition of scenario %s) is not a behaviour of ClientConn at event %s"
+                            % (json.dumps(m), json.dumps(x["event"])), {"trace": again[x["index"]], "offset": x["offset"], "scenario": m})
+        if sigs.count(TIMED) >= NEEDED:
+            ctx.violate(TIMED, "client run is not a behaviour of ClientConn (repaired design) at event %s (the call was owed an answer: issued after "
+                        "the client had seen the close, or handed over by the client itself); preceding events: %s; the same script ran into "
+                        "the timeout again in %d of %d repetitions" % (json.dumps(f["event"]), json.dumps(f["prefix"][:-1])[:400], sigs.count(TIMED), len(again)),
+                        {"trace": traces[ti], "offset": f["offset"], "scenario": m})
+    # (after the validation: what the usable runs show stands)
+    if lost * 4 > nproc * per:
+        raise Inconclusive("%d of %d scenarios unusable (the machine stalled for more than a fifth of the timeout during a call that "
+                           "timed out, or the port could not be re-opened): %s" % (lost, nproc * per, dstats))
     # binding self-test on an accepted trace with a close followed by a successful call
     # (a call that starts after the client saw one close may still race with another close the client has not seen yet:
     # its timing out is then a behaviour of the model, so several candidate runs are tried)
@@ -142,23 +230,60 @@ def run(ctx):
             break
         if n >= 3:
             raise Inconclusive("binding self-test failed: write decision on the closed connection was accepted")
+    # restart: a call issued once the endpoint is up again (client has seen the closes) that "fails with the dial error" must be rejected
+    for n, base in enumerate(t for t in traces if any(e["e"] == "SrvUp" for e in t)):
+        ui = [i for i, e in enumerate(base) if e["e"] == "SrvUp"][-1]
+        after = [i for i, e in enumerate(base) if e["e"] == "CallStart" and i > ui]
+        if not after:
+            continue
+        r = base[after[0]]["r"]
+        m3 = [dict(e) for e in base[:after[0] + 1]] + [{"e": "SendErr", "r": r, "err": "dial"}, {"e": "CallEnd", "r": r, "ok": False, "ms": 0}]
+        acc, fails, _ = tracecheck.validate(ctx, SPEC, "Trace_ClientConn", cfg, [m3], name="selftest-stale-%d" % n)
+        if not fails:
+            raise Inconclusive("binding self-test failed: a dial error handed to a call issued after the endpoint was up again was accepted")
+        selftest["dial-error-after-restart"] = "rejected"
+        break
+    else:
+        raise Inconclusive("no restart run with a call after the endpoint came back (self-test / vacuity)")
+    # the classes the scenarios are built for must have occurred (vacuity guards)
+    late = sum(1 for t in traces if any(e["e"] == "Close" and any(x["e"] == "Close" and x["k"] > e["k"] for x in t[:i]) for i, e in enumerate(t)))
+    short_after_handover = sum(1 for t in traces for i, e in enumerate(t) if e["e"] == "LiveCheck" and not e["live"]
+                               and any(x["e"] == "CallEnd" and x.get("to", 1500) < 1000 for x in t[i:]))
+    if dstats.get("send_errors", 0) == 0 or late == 0 or short_after_handover == 0:
+        raise Inconclusive("a scenario class never occurred: failed dials %d, late close reports of an old connection %d, hand-overs under a short "
+                           "call timeout %d" % (dstats.get("send_errors", 0), late, short_after_handover))
     notify = notification_path(ctx)
-    r_fix = tlc.require_clean(f_fix.result(), "ClientConn (Fix)")
+    r_fixes = {n: tlc.require_clean(f.result(), "ClientConn (Fix, %s)" % n) for n, f in f_fix.items()}
+    r_fix = r_fixes["close"]
     for inv, f in f_orig.items():
         if inv not in f.result().inv_violated:
             raise Inconclusive("the original design does not violate %s in the model (vacuity guard)" % inv)
+    for m, f in f_mut.items():
+        if MUTANTS[m][0] not in f.result().inv_violated:
+            raise Inconclusive("the wrong design '%s' does not violate %s in the model (vacuity guard)" % (m, MUTANTS[m][0]))
     ex.shutdown()
     calls = sum(1 for t in traces for e in t if e["e"] == "CallEnd")
     after_close = sum(1 for t in traces for i, e in enumerate(t) if e["e"] == "CallStart" and any(x["e"] == "Close" for x in t[:i]))
     ctx.coverage = {
-        "states": r_fix.distinct + states, "transitions": r_fix.generated + trans,
+        "states": sum(r.distinct for r in r_fixes.values()) + states, "transitions": sum(r.generated for r in r_fixes.values()) + trans,
         "traces_validated_against_impl": len(traces),
         "samples": [traces[0][:40]],
         "evaluations": len(traces), "distinct_nontrivial": len({json.dumps([{k: v for k, v in e.items() if k != "ms"} for e in t]) for t in traces}),
-        "rule": "2-4 calls per run, the server closing the connection in use between calls (p = 3/4), next call after 0/1/5/30/200/1100 ms, "
-                "delays of 1-12 ms injected at one or two client hook points per run; distinct = distinct event sequences",
-        "model_checking": {"repaired": {"distinct": r_fix.distinct, "generated": r_fix.generated},
-                           "original_violates": list(INVS)},
+        "rule": "scenario classes by number (restart / heldrecv / handover / overlap / doubleclose / random); random: 2-4 calls per run, the server "
+                "closing the connection in use between calls (p = 3/4), next call after 0/1/5/30/200/1100 ms, delays of 1-12 ms (one in three: "
+                "40-140 ms) injected at one or two client hook points per run; call timeout 450/550/700 ms in the directed new classes and in "
+                "half of the others, else 1500 ms; distinct = distinct event sequences",
+        "model_checking": {"repaired": {n: {"distinct": r.distinct, "generated": r.generated} for n, r in r_fixes.items()},
+                           "original_violates": list(INVS), "wrong_designs_violate": {m: v[0] for m, v in MUTANTS.items()}},
+        "driver": dstats, "runs_with_a_late_close_report_of_an_old_connection": late,
+        "timeouts_of_owed_calls_and_their_repetitions": reproduced,
+        # observation, not judged: a call that raced with a close the client had not seen (exempt) and whose write FAILED is put into the
+        # failure queue, but nobody re-dials (the sender's "try to reconnect once" needs err == net.ErrClosed, which a *net.OpError never
+        # is): the request is sent only when a later call dials; a lone call runs into its timeout
+        "observation_calls_stranded_after_a_failed_write_until_timeout": sum(
+            1 for t in traces for i, e in enumerate(t) if e["e"] == "WriteError"
+            and any(x["e"] == "CallEnd" and x["r"] == e["r"] and not x["ok"] for x in t[i:])),
+        "hand_overs_under_a_short_call_timeout": short_after_handover,
         "calls": calls, "calls_issued_after_a_close_was_seen": after_close, "calls_timed_out_after_racing_a_close":
             sum(1 for t in traces for e in t if e["e"] == "CallEnd" and not e["ok"]),
         "hook_hits": dict(zip(["scenarios", "dialed", "dequeued", "close", "recv.exit", "enqueue", "tick"], hits)),
@@ -173,17 +298,38 @@ def notification_path(ctx):
     the scripted peer of the C08/C09 harness (class 'notify'): first-wave calls are answered, the peer sends the
     notification, and once the client has received it every caller makes a second call 2..1200 ms later (before and after
     the old connection is closed by GraceClose's 500 ms tick).  The peer answers everything it receives on any connection,
-    so each of those calls must succeed; the runs are also validated against ClientMux (Trace_ClientMux)."""
+    so each of those calls must succeed; the runs are also validated against ClientMux (Trace_ClientMux).
+    The deadlines of these calls are short (the driver's: 90..400 ms), so a second-wave call that ran into its deadline is
+    reported only if it does so again in two repetitions of the same runs (reproduce before report: a stranded request shows
+    every time, a stalled machine does not); everything that does not depend on the clock is reported at once."""
     from checks import c08 as mux
     exe = gobuild.build(ctx, "muxdrive")
-    traces, hits = mux.drive(ctx, exe, ["notify"], ctx.pick(10, 60), 16, ctx.pick(5, 10), "c11notify", selftest=False)
-    failures, st, _ = mux.validate(ctx, traces, mux.C08_INV, "c11notify", groups=2)
+    attempts = []
+    for attempt in range(3):
+        res = notify_once(ctx, mux, exe, "c11notify" + ("-r%d" % attempt if attempt else ""), first=(attempt == 0))
+        attempts.append(res)
+        if not res["timeouts"]:
+            break
+    else:
+        sc, e, t = attempts[0]["timeouts"][0]
+        ctx.violate("C11:call-after-close-notification-failed:timeout",
+                    "caller %d's call, issued after the client had received the server's close notification, ran into its deadline after %d ms "
+                    "although the server answers every request it receives (a call did so in each of 3 repetitions: %s)"
+                    % (e["c"], e.get("ms", -1), [len(a["timeouts"]) for a in attempts]), {"scenario": sc, "event": e, "trace": t[:300]})
+    out = dict(attempts[0]["summary"])
+    out["deadline_hits_per_repetition"] = [len(a["timeouts"]) for a in attempts]
+    return out
+
+
+def notify_once(ctx, mux, exe, name, first):
+    traces, hits = mux.drive(ctx, exe, ["notify"], ctx.pick(10, 60), 16, ctx.pick(5, 10), name, selftest=False)
+    failures, st, _ = mux.validate(ctx, traces, mux.C08_INV, name, groups=2)
     for t, f in failures:
         ev = f["event"]
         ctx.violate("C11:notify:trace-rejected:%s" % (f["invariant"][0] if f["invariant"] else ev.get("e")),
                     "run with a close notification is not a behaviour of ClientMux at event %s" % json.dumps(ev), mux.describe(t, f))
     second = failed = 0
-    delays = {}
+    timeouts = []
     for t in traces:
         half = t[0]["k"] // 2
         pushed = any(e["e"] == "RecvBegin" and e.get("id") == 0 for e in t)
@@ -192,6 +338,9 @@ def notification_path(ctx):
                 second += 1
                 if e["k"] != "reply" and pushed:
                     failed += 1
+                    if e["k"] == "timeout":
+                        timeouts.append((t[0], e, t))
+                        continue
                     ctx.violate("C11:call-after-close-notification-failed:%s" % e["k"],
                                 "caller %d's call, issued after the client had received the server's close notification, ended with %s "
                                 "after %d ms although the server answers every request it receives" % (e["c"], e["k"], e.get("ms", -1)),
@@ -215,9 +364,10 @@ def notification_path(ctx):
         raise Inconclusive("no call was issued after a close notification")
     # binding self-test: a second-wave call that claims a reply the peer never sent must be rejected by the trace spec
     base = next((t for t in traces if all(e["k"] == "reply" for e in t if e["e"] == "CallEnd")), None)
-    if base is not None and not failures:
+    if first and base is not None and not failures:
         victim = [e for e in base if e["e"] == "CallEnd"][-1]
         other = [e for e in base if e["e"] == "CallEnd" and e["c"] != victim["c"]][0]
         m = [dict(e, tag=other["tag"]) if (e["e"] == "CallEnd" and e["c"] == victim["c"]) else e for e in base]
         mux.require_rejected(ctx, m, mux.C08_INV, "st-notify-tag")
-    return {"runs": len(traces), "calls_after_the_notification": second, "failed": failed, "trace_states": st["states"]}
+    return {"timeouts": timeouts,
+            "summary": {"runs": len(traces), "calls_after_the_notification": second, "failed": failed, "trace_states": st["states"]}}
